@@ -12,7 +12,7 @@ import trace_kernels as TK
 THEOREMS = ['C12_ortho_conventional', 'C12_ortho_metric', 'C12_metric_matrix_code', 'C12_det_volume',
             'C12_volumes_agree', 'C12_ortho_inverse', 'C12_inverse_general', 'C12_f2c_agree', 'C12_c2f_f2c',
             'C12_dist_metric', 'C12_vector_length_metric', 'C12_recip_lengths', 'C12_ustar_correct',
-            'C12_ucart_correct', 'C12_ucart_symmetric', 'C12_ueq_trace', 'C12_ueq_iso', 'C12_pd_congruence']
+            'C12_ucart_correct', 'C12_ucart_symmetric', 'C12_ueq_trace', 'C12_ueq_iso', 'C12_pd_congruence', 'C12_valid_cell_ortho', 'C12_valid_cell_hex']
 GEN_FILES = ['K_cell', 'K_adp']
 
 
@@ -89,7 +89,24 @@ def build(rng, cell, natoms):
     atoms = []
     for i in range(natoms):
         xyz = [round(rng.uniform(-0.2, 1.2), 5) for _ in range(3)]
-        kind = rng.choice(['aniso', 'aniso', 'aniso', 'iso'])
+        kind = rng.choice(['aniso', 'aniso', 'aniso', 'iso', 'cancel'])
+        if kind == 'cancel':
+            # dyadic components (exact in floating point) whose partial sums cancel exactly:
+            # U22+U33+U23+U13+U12 = 0, or U33+U23+U13+U12 = 0, with either definiteness
+            d = lambda lo, hi: rng.randint(lo, hi) / 256.0
+            u11 = d(4, 20)
+            u22, u33 = d(4, 20), d(4, 20)
+            u23, u13 = -d(1, 12), -d(1, 12)
+            if rng.random() < 0.5:
+                u12 = -(u22 + u33 + u23 + u13)
+            else:
+                u12 = -(u33 + u23 + u13)
+            uv = [u11, u22, u33, u23, u13, u12]
+            kind = 'aniso'
+            lines.append('C%d 1 %.5f %.5f %.5f 11.0 %r %r =' % (i, xyz[0], xyz[1], xyz[2], uv[0], uv[1]))
+            lines.append('   %r %r %r %r' % (uv[2], uv[3], uv[4], uv[5]))
+            atoms.append((xyz, uv, kind))
+            continue
         if kind == 'aniso':
             U = gen_u(rng, cell)
             uv = [U[0][0], U[1][1], U[2][2], U[1][2], U[0][2], U[0][1]]
